@@ -398,6 +398,10 @@ def rule_r10(ctx) -> RuleResult:
                 owner = owner or (mn + ".<module level>")
                 if owner in TAG_TABLE_READERS:
                     rr.ok(owner, "reads ALLOWED_HTML_TAGS: " + TAG_TABLE_READERS[owner][:60], {"reader": owner})
+                elif mn == "node_expand" and not any(isinstance(x, ast.arg) and x.arg in ("ctx", "wtp") for f_ in [m.funcs.get(owner.split(".", 1)[1])]
+                                                     if f_ is not None for x in ast.walk(f_.args)):
+                    # the exception is the serialiser module, which takes no context at all -- wherever in it the read sits
+                    rr.ok(owner, "reads ALLOWED_HTML_TAGS: serialiser code without a context parameter", {"reader": owner})
                 else:
                     rr.bad(Finding("C03.R10", m.relpath, owner, "ALLOWED_HTML_TAGS (line {})".format(n.lineno),
                                    "this code decides from the module-level tag table, which lacks the tags a context registers through "
